@@ -217,6 +217,42 @@ def body_along(case):
     return labels
 
 
+WITH_INTEGRAL = False
+
+
+def body_history(case):
+    """History independence: a sequence of throws on ONE object gives, at every step, bit for bit what a fresh
+    object gives for that batch (stale caches keyed on size, state leaking between throws)."""
+    from nuspacesim.simulation.geometry.region_geometry import RegionGeom
+
+    cfg, hist, s_list = case["cfg"], case["batches"], case["s"]
+    conf = gc.make_config(cfg)
+    with cut("RegionGeom()"):
+        shared = RegionGeom(conf)
+    labels = set()
+    sizes = [len(b) for b in hist]
+    if len(set(sizes)) < len(sizes):
+        labels.add("repeated_size")
+    for step, rows in enumerate(hist):
+        u = np.array(rows, dtype=np.float64).T.copy()
+        with cut(f"throw #{step} on a reused object"):
+            shared.throw(u.copy())
+            a = gc.snapshot_throw(shared, s_list, WITH_INTEGRAL)
+        with cut("throw on a fresh object"):
+            fresh = RegionGeom(conf)
+            fresh.throw(u.copy())
+            b = gc.snapshot_throw(fresh, s_list, WITH_INTEGRAL)
+        for key in b:
+            require(
+                a[key] == b[key],
+                f"step {step} (batch sizes {sizes}): {key} of a reused RegionGeom differs from a fresh object's for the same random numbers",
+            )
+        if int(np.asarray(fresh.event_mask).sum()) > 0:
+            labels.add("kept")
+    if len(hist) >= 3:
+        labels.add("len>=3")
+    return labels
+
 def _nt(labels):
     return bool(labels & {"face", "s_positive_kept", "polar_detector", "antimeridian_or_wrap"})
 
@@ -241,5 +277,13 @@ SUBCHECKS = [
         {"quick": 1200, "thorough": 40000},
         doc="ground offset of the point at distance s equals atan2(s cos b, R + s sin b) for the reported emergence angle; s=0 is the spot",
         tolerances={"offset_rad": TOL_OFFSET},
+    ),
+    SubCheck(
+        "history",
+        st.fixed_dictionaries({"cfg": gc.geom_config(), "batches": gc.batches(), "s": st.lists(dist, min_size=1, max_size=4)}),
+        body_history,
+        lambda labels: "repeated_size" in labels and "kept" in labels,
+        {"quick": 400, "thorough": 20000},
+        doc="sequence of throws + position queries on one object == fresh object per batch, bit for bit (all public per-event arrays and accessors)",
     ),
 ]
